@@ -38,7 +38,9 @@ def gen_sequence(rng, root):
     docs = [Doc("f1", "file://" + root + "/src/a.gleam"), Doc("f2", "file://" + root + "/src/b.gleam"),
             Doc("f3", "file://" + root + "/free/c.gleam"), Doc("o1", "untitled:Untitled-1"), Doc("f9", "file://" + root + "/src/never.gleam"),
             # non-file URIs whose path part names a file of the package: they are other documents, not aliases of it
-            Doc("o2", "untitled:" + root + "/src/a.gleam"), Doc("o3", "git:" + root + "/src/b.gleam?ref=HEAD")]
+            Doc("o2", "untitled:" + root + "/src/a.gleam"), Doc("o3", "git:" + root + "/src/b.gleam?ref=HEAD"),
+            # a file of the package whose name is not valid UTF-8 (percent-encoded bytes): a document like any other
+            Doc("f5", "file://" + root + "/src/%FF%C3%28.gleam")]
     client = {}          # uri key -> editor text (only while every edit so far was valid); None = unknown to the oracle
     seq = []
     rid = 100
@@ -100,7 +102,7 @@ def gen_sequence(rng, root):
                     elif t == 2:
                         events.append(("none", "file://" + root + rng.choice(["/src", "/free", "", "/gleam.toml"]), typ, ""))
                     elif t == 3:
-                        events.append(("none", rng.choice(docs[3:4] + docs[5:]).uri, typ, ""))
+                        events.append(("none", rng.choice(docs[3:4] + docs[5:7]).uri, typ, ""))
                     else:
                         # a document the editor holds open: events about its file are not the server's business
                         held = [dd for dd in docs if is_open.get(dd.key) and isinstance(client.get(dd.key), str) and client.get(dd.key) != "FORGOTTEN"]
@@ -143,7 +145,11 @@ def gen_sequence(rng, root):
                 i = rng.randrange(len(pos)); j = rng.randrange(i, len(pos))
                 (sl, sc, si), (el, ec, ei) = pos[i], pos[j]
                 if kind <= 4:
-                    changes.append(((sl, sc, el, ec), ins, "valid"))
+                    if cur is not None and rng.random() < 0.5:
+                        # the deprecated `rangeLength` many editors still send: UTF-16 length of the replaced text in the editor's buffer
+                        changes.append(((sl, sc, el, ec, sum(p_text.u16(ch) for ch in cur[si:ei])), ins, "valid"))
+                    else:
+                        changes.append(((sl, sc, el, ec), ins, "valid"))
                     if cur is not None:
                         new = cur[:si] + ins + cur[ei:]
                         cur = new if p_text.wf_crlf(new) else None
@@ -240,7 +246,7 @@ def encode_for_model(seq):
     c_exists = False
     for op in seq:
         if op[0] == "open":
-            if op[1].key in DISK and not loaded:
+            if (op[1].key in DISK or op[1].key == "f5") and not loaded:
                 # the first didOpen of a file of the package loads every file of the package from disk
                 loaded = True
                 for k, t in DISK.items():
@@ -249,7 +255,7 @@ def encode_for_model(seq):
         elif op[0] == "change":
             cs = []
             for (rng_, ins, _) in op[2]:
-                r = "-" if rng_ is None else ",".join(map(str, rng_))
+                r = "-" if rng_ is None else ",".join(map(str, rng_[:4]))
                 cs.append(f"{r}@{hexs(ins)}")
             out.append(f"change:{op[1].key}:{'|'.join(cs)}")
         elif op[0] == "close":
@@ -300,6 +306,8 @@ def run_sequence(root, docs, seq):
                         cc.append({"text": ins})
                     else:
                         cc.append({"range": {"start": {"line": r[0], "character": r[1]}, "end": {"line": r[2], "character": r[3]}}, "text": ins})
+                        if len(r) == 5:
+                            cc[-1]["rangeLength"] = r[4]
                 c.notify("textDocument/didChange", {"textDocument": {"uri": op[1].uri, "version": n + 2}, "contentChanges": cc})
             elif op[0] == "close":
                 c.notify("textDocument/didClose", {"textDocument": {"uri": op[1].uri}})
@@ -468,7 +476,7 @@ def run_c13_blackbox(res, tier, seed):
                     pos = p_text.client_positions(cur)
                     a = rng.randrange(len(pos)); b = rng.randrange(a, len(pos))
                     new = cur[:pos[a][2]] + ins + cur[pos[b][2]:]
-                    ch = ((pos[a][0], pos[a][1], pos[b][0], pos[b][1]), ins, "valid")
+                    ch = ((pos[a][0], pos[a][1], pos[b][0], pos[b][1]) + ((sum(p_text.u16(x) for x in cur[pos[a][2]:pos[b][2]]),) if rng.random() < 0.5 else ()), ins, "valid")
                 if not p_text.wf_crlf(new):
                     continue
                 changes.append(ch)
